@@ -7,7 +7,13 @@ PATCH=$1; PROPS=$2; WT=${3:-/tmp/seedwt}
 export GOFLAGS=-mod=mod GOPROXY=off GOSUMDB=off GOTOOLCHAIN=local GOWORK=off
 if [ ! -d "$WT" ]; then git -C /repo worktree add --detach "$WT" HEAD -q || exit 3; fi
 git -C "$WT" checkout -q -- . && git -C "$WT" clean -fdq
-git -C "$WT" apply "$PATCH" || { echo "patch does not apply"; exit 3; }
+git -C "$WT" checkout -q --detach main
+if ! git -C "$WT" apply "$PATCH" 2>/dev/null; then
+  if true; then
+    echo "NOTE: patch conflicts with a later fix: commit; checking it on the pinned commit instead (baseline findings of that commit will show too)"
+    git -C "$WT" checkout -q -f --detach a5f47af60 && git -C "$WT" clean -fdq && git -C "$WT" apply "$PATCH" || { echo "patch does not apply"; exit 3; }
+  fi
+fi
 OUT=$(mktemp -d)
 /verif/bin/lavacheck -repo "$WT" -out "$OUT" -prop "$PROPS" | grep -v "^      " | cut -c1-400
 rc=${PIPESTATUS[0]}
